@@ -347,6 +347,8 @@ fn atoms() -> Vec<V> {
         f(1.0),
         f(1.5),
         f(0.0),
+        // the negative zero: numerically equal to 0 and 0.0, a different bit pattern
+        f(-0.0),
         c('a'),
         c('b'),
         V::Byte(1),
